@@ -11,16 +11,19 @@ import (
 )
 
 type Gen struct {
-	R        *SplitMix
-	W        map[string]int // weights by command family
-	Text     string         // "plain" | "unicode" | "huge"
-	Modes    []string       // input modes to draw from
-	Agents   []string
-	nfile    int
-	BadBias  int // percent of commands deliberately aimed at failure causes
-	Human    int // percent of commands run without --json
-	Known    map[string]bool
-	ForcePct int // percent of creations whose first id draw is forced to collide
+	R           *SplitMix
+	W           map[string]int // weights by command family
+	Text        string         // "plain" | "unicode" | "huge"
+	Modes       []string       // input modes to draw from
+	Agents      []string
+	nfile       int
+	BadBias     int // percent of commands deliberately aimed at failure causes
+	Human       int // percent of commands run without --json
+	Known       map[string]bool
+	ForcePct    int // percent of creations whose first id draw is forced to collide
+	RepeatPct   int // percent of result attachments that are repeated verbatim
+	lastRes     *Cmd
+	wantCompact bool
 	// avoid triggers of open known findings in most runs (see DESIGN 5)
 	Avoid map[string]bool
 }
@@ -197,6 +200,37 @@ func (g *Gen) Next(m *Model) Step {
 }
 
 func (g *Gen) next(m *Model) Step {
+	// histories with repeats: the same file attached again (unchanged) to the
+	// same task, possibly with another summary, then often a compaction
+	if g.lastRes != nil && g.RepeatPct > 0 {
+		if g.R.Intn(100) < g.RepeatPct {
+			c := *g.lastRes
+			if g.R.Chance(1, 2) {
+				c.RSum = sp(g.text("title"))
+			}
+			g.lastRes = nil
+			g.wantCompact = true
+			return Step{Cmd: &c}
+		}
+		g.lastRes = nil
+	}
+	if g.wantCompact {
+		g.wantCompact = false
+		if g.R.Chance(2, 3) {
+			return Step{Cmd: &Cmd{Op: "compact"}}
+		}
+	}
+	st := g.next2(m)
+	if c := st.Cmd; c != nil && c.Op == "set" && c.RPath != nil && c.RSum != nil {
+		cc := *c
+		cc.Title, cc.Body, cc.Epic, cc.State, cc.Claim = nil, nil, nil, nil, nil
+		cc.Mode = "json"
+		g.lastRes = &cc
+	}
+	return st
+}
+
+func (g *Gen) next2(m *Model) Step {
 	fam := g.pick(g.W)
 	human := g.R.Intn(100) < g.Human
 	switch fam {
